@@ -61,6 +61,9 @@ func operandPool(seed uint64, nRandom int) ([]Operand, []core.Violation) {
 					Detail: fmt.Sprintf("%s => %s, want %s", p.Src, core.Src(op.Got), core.Src(m)), Replay: map[string]string{"src": p.Src}})
 			}
 			k := op.Got.Enc + "|" + op.GoType
+			if p.Kind == "join-reorder" {
+				k += "|joined" // same Go type as the literal, but a different internal column layout
+			}
 			if seen[k] {
 				continue
 			}
